@@ -238,3 +238,178 @@ func VerifC38_response() {
 		vrt.Assert(!seenTrailers, "C38/no-trailers-unless-declared")
 	}
 }
+
+// setupC38 is the scaffolding of VerifC38_response for the focused harnesses below: a response writer for
+// stream 1 of a hand-built serverConn and the sequentialised serve goroutine as vrt.OnBlock peer.
+func setupC38(method string) (*serverConn, *fakeConnH2, *responseWriter, func()) {
+	gotrack.DebugGoroutines = false
+	sc, conn := newConnH2()
+	st := &stream{id: 1, state: stateHalfClosedRemote}
+	attachStreamH2(sc, st)
+	st.flow.add(sc.initialWindowSize)
+	sc.streams[1] = st
+	sc.curOpenStreams = 1
+	sc.maxStreamID = 1
+	rws := &responseWriterState{conn: sc, stream: st, req: &http.Request{Method: method}}
+	rws.bw = bufio.NewWriterSize(chunkWriter{rws}, handlerChunkWriteSize)
+	rw := &responseWriter{rws: rws}
+	peer := func() {
+		for i := 0; i < 8; i++ {
+			select {
+			case wm := <-sc.wantWriteFrameCh:
+				sc.writeFrame(wm)
+			default:
+			}
+			select {
+			case wm := <-sc.writeFrameCh:
+				err := wm.write.writeFrame(sc)
+				sc.wroteFrame(frameWriteResult{wm: wm, err: err})
+			default:
+				if len(sc.wantWriteFrameCh) == 0 {
+					return
+				}
+			}
+		}
+	}
+	vrt.OnBlock(peer)
+	return sc, conn, rw, peer
+}
+
+func repeatC38(c byte, n int) string {
+	b := make([]byte, n)
+	for i := range b {
+		b[i] = c
+	}
+	return string(b)
+}
+
+// continuationsC38 counts the CONTINUATION frames on the wire.
+func continuationsC38(wire []byte) int {
+	n := 0
+	for off := 0; off+9 <= len(wire); {
+		l := int(wire[off])<<16 | int(wire[off+1])<<8 | int(wire[off+2])
+		if FrameType(wire[off+3]) == FrameContinuation {
+			n++
+		}
+		off += 9 + l
+	}
+	return n
+}
+
+// VerifC38_largeHeaders: a response whose HPACK header block does not fit one frame (HEADERS +
+// CONTINUATION): one handler header of BIG octets ('Z' has an 8-bit Huffman code, so the block is not
+// shrunk below the 16384-octet frame size), header-only (204, HEAD, handler returns without writing) or
+// followed by a one-octet body. The client view must still have the handler's status and header and
+// END_STREAM exactly once, at the end.
+func VerifC38_largeHeaders() {
+	isHead := vrt.Choose("head", 2) == 1
+	method := "GET"
+	if isHead {
+		method = "HEAD"
+	}
+	sc, conn, rw, peer := setupC38(method)
+	big := repeatC38('Z', vrt.Param("BIG", 17000))
+	status := 200
+	if vrt.Choose("status204", 2) == 1 {
+		status = 204
+	}
+	h := rw.Header()
+	h.Set("Content-Type", "text/plain")
+	h.Set("Date", "Mon, 01 Jan 2024 00:00:00 GMT")
+	h.Set("X-Custom", big)
+	rw.WriteHeader(status)
+	var body []byte
+	if status == 200 && vrt.Choose("writeBody", 2) == 1 {
+		body = vrt.Bytes("chunk", 1)
+		rw.Write(body)
+	}
+	rw.handlerDone()
+	vrt.OnBlock(nil)
+	peer()
+	sc.Flush()
+
+	frames, ok := clientViewC38(conn.out, 1)
+	vrt.Assert(ok, "C38/client-can-parse-the-response")
+	vrt.Assert(len(frames) >= 1 && frames[0].isHeaders, "C38/response-starts-with-headers")
+	if len(frames) == 0 || !frames[0].isHeaders {
+		return
+	}
+	sv, sn := fieldC38(frames[0].fields, ":status")
+	vrt.Assert(sn == 1 && sv == httpCodeString(status), "C38/status-is-the-handlers")
+	v, n := fieldC38(frames[0].fields, "x-custom")
+	vrt.Assert(n == 1 && v == big, "C38/handler-header-delivered")
+	if continuationsC38(conn.out) > 0 {
+		vrt.Cover("C38/header-block-needed-continuation") // vacuity guard: BIG was big enough
+	}
+	ends, lastEnds := 0, false
+	var got []byte
+	for i, f := range frames {
+		if f.endStream {
+			ends++
+		}
+		lastEnds = f.endStream
+		if i > 0 && f.isData {
+			got = append(got, f.data...)
+		}
+	}
+	vrt.Assert(ends == 1 && lastEnds, "C38/end-stream-exactly-once-and-last")
+	if isHead {
+		vrt.Assert(len(got) == 0, "C38/no-body-for-head-and-bodyless-status")
+	} else {
+		vrt.Assert(len(got) == len(body) && (len(body) == 0 || got[0] == body[0]), "C38/body-is-the-bytes-written")
+	}
+}
+
+var teSpellingsC38 = []string{"transfer-encoding", "Transfer-encoding", "TRANSFER-ENCODING", "Transfer-Encoding"}
+
+// VerifC38_rawHeaderKeys: http.Header is a map; a handler (or a proxy layer copying a backend's header map)
+// may store a field under a key that is not in canonical form. Whatever the spelling of the key, the
+// connection-specific Transfer-Encoding field must not reach the client (RFC 7540 8.1.2.2) and every
+// field name on the wire is lower case; an ordinary field stored the same way is delivered.
+// (Only Transfer-Encoding: bfe, like x/net/http2, recognises the other connection-specific fields by
+// their canonical map key only - see notes/C38.md.)
+func VerifC38_rawHeaderKeys() {
+	sc, conn, rw, peer := setupC38("GET")
+	h := rw.Header()
+	h.Set("Content-Type", "text/plain")
+	h.Set("Date", "Mon, 01 Jan 2024 00:00:00 GMT")
+	te := teSpellingsC38[vrt.Choose("spelling", len(teSpellingsC38))]
+	h[te] = []string{"chunked"}
+	rawCustom := vrt.Choose("rawCustom", 2) == 1
+	if rawCustom {
+		h["x-cUSTOM"] = []string{"Va"}
+	}
+	if vrt.Choose("explicitWriteHeader", 2) == 1 {
+		rw.WriteHeader(200)
+	}
+	var body []byte
+	if vrt.Choose("writeBody", 2) == 1 {
+		body = vrt.Bytes("chunk", 1)
+		rw.Write(body)
+	}
+	rw.handlerDone()
+	vrt.OnBlock(nil)
+	peer()
+	sc.Flush()
+
+	frames, ok := clientViewC38(conn.out, 1)
+	vrt.Assert(ok, "C38/client-can-parse-the-response")
+	vrt.Assert(len(frames) >= 1 && frames[0].isHeaders, "C38/response-starts-with-headers")
+	if len(frames) == 0 || !frames[0].isHeaders {
+		return
+	}
+	hd := frames[0].fields
+	for _, hf := range hd {
+		for j := 0; j < len(hf.Name); j++ {
+			vrt.Assert(hf.Name[j] < 'A' || hf.Name[j] > 'Z', "C38/header-names-lower-case")
+		}
+	}
+	_, n := fieldC38(hd, "transfer-encoding")
+	vrt.Assert(n == 0, "C38/connection-specific-fields-removed")
+	v, n := fieldC38(hd, "x-custom")
+	if rawCustom {
+		vrt.Assert(n == 1 && v == "Va", "C38/handler-header-delivered")
+	} else {
+		vrt.Assert(n == 0, "C38/no-invented-header")
+	}
+}
